@@ -14,9 +14,7 @@ open Verif.Model.Types Verif.Model.Auth Verif.Model.Cast
 abbrev R : List Rule := RulesPinned.rules
 
 /-- n optional layers around a value -/
-def wrap : Nat → DVal → DVal
-  | 0, v => v
-  | n + 1, v => .some (wrap n v)
+abbrev wrap : Nat → DVal → DVal := someN
 
 /-- `as?` succeeds exactly when `isInstance` is true, exactly when the dynamic type is a subtype of the
     target (in the checker's relation, which is also what `getType().isSubtype(of:)` answers), and then
@@ -110,7 +108,7 @@ theorem unwrap_rule (n : Nat) (v : DVal) (t : Ty) (fuel : Nat)
   have h : ∀ n, unbox (wrap n v) = unbox v := by
     intro n; induction n with
     | zero => rfl
-    | succ k ih => simpa [wrap, unbox] using ih
+    | succ k ih => simpa [someN, unbox] using ih
   simp [castFailable, unboxForCast, ht, h]
 
 /-- … in which case the value is tested as it is, optional layers included. -/
@@ -119,7 +117,111 @@ theorem unwrap_rule_any (v : DVal) (t : Ty) (fuel : Nat)
     castFailable R fuel v t = if isSub R fuel (dynType v) t then some (castResult t v) else none := by
   simp [castFailable, unboxForCast, ht]
 
+/-- **The optional rule, on the result** (the value a successful cast yields, for every value that is not
+    nil and whose type mentions no reference, resources included): a value with `n` optional layers cast
+    to a target with `m` optional layers around a non-optional `u` gives the *original* innermost value —
+    with `max n m` layers when `u` is `AnyStruct` / `AnyResource` (the value keeps its layers, the target
+    adds the missing ones: `Some(Some(R))` to `AnyResource?` stays `Some(Some(R))`, an `AnyResource` that is an
+    `R?`), with exactly `m` layers otherwise (the value's layers are unwrapped first).  Its run-time type is
+    `specResultType`, the independent statement of the rule the stream's direct oracle evaluates.
+    `boxOptional` / `convertForTarget` / `unboxForCast` are the ported code. -/
+theorem cast_result_type (n m : Nat) (ty u : Ty) (r : String)
+    (hnr : noRef ty = true) (hu : ∀ x, u ≠ .opt x) :
+    castResult (optN m u) (unboxForCast (optN m u) (wrap n (.atom ty r))) =
+      wrap (if isAnyStructOrResource u then max n m else m) (.atom ty r) ∧
+    dynType (castResult (optN m u) (unboxForCast (optN m u) (wrap n (.atom ty r)))) =
+      specResultType (wrap n (.atom ty r)) (optN m u) := by
+  have hres : castResult (optN m u) (unboxForCast (optN m u) (wrap n (.atom ty r))) =
+      wrap (if isAnyStructOrResource u then max n m else m) (.atom ty r) := by
+    unfold castResult unboxForCast
+    rw [Verif.Proofs.Cast.unwrap_optN m u hu]
+    by_cases hany : isAnyStructOrResource u = true
+    · simp only [hany, if_true, Verif.Proofs.Cast.convert_someN_noRef _ n ty r hnr,
+        Verif.Proofs.Cast.box_someN ty r u hu m n n]
+      congr 1
+      omega
+    · have hany' : isAnyStructOrResource u = false := by simpa using hany
+      have hunb : unbox (wrap n (.atom ty r)) = someN 0 (.atom ty r) := by
+        rw [Verif.Proofs.Cast.unbox_someN]; rfl
+      simp only [hany', Bool.false_eq_true, if_false]
+      rw [hunb, Verif.Proofs.Cast.convert_someN_noRef _ 0 ty r hnr, Verif.Proofs.Cast.box_someN ty r u hu m 0 0]
+      simp
+  refine ⟨hres, ?_⟩
+  rw [hres]
+  simp only [specResultType, Verif.Proofs.Cast.unwrap_optN m u hu, Verif.Proofs.Cast.optDepth_optN m u hu,
+    Verif.Proofs.Cast.depth_someN_atom, Verif.Proofs.Cast.unbox_someN, Verif.Proofs.Cast.dynType_someN]
+  by_cases hany : isAnyStructOrResource u = true
+  · simp [hany, unbox, dynType]
+  · simp [hany, unbox, dynType]
+
+/-- **Both engines**: the VM's casts (`opFailableCast` / `opForceCast` test the run-time relation on static
+    types) give what the interpreter's give (the checker's relation on the converted types) whenever the
+    value the cast looks at — after the optional rule — is not of an optional type.  **Partial**: optional
+    values cast to `AnyStruct` / `AnyResource` (or optionals of them) keep their layers; see
+    `engines_agree_kindstable_partial` for those and `nil_anyresource_witness` for where it fails. -/
+theorem engines_agree_partial (v : DVal) (t : Ty) (fuel : Nat)
+    (h : ∀ u, dynType (unboxForCast t v) ≠ .opt u) :
+    castFailableVM R (fuel + 3) v t = castFailable R (fuel + 3) v t ∧
+    castForceVM R (fuel + 3) v t = castForce R (fuel + 3) v t := by
+  refine ⟨?_, ?_⟩ <;>
+    simp only [castFailableVM, castFailable, castForceVM, castForce,
+      Verif.Properties.C08.runtime_agrees_partial _ t fuel h]
+
+/-- … and for optional values too, as long as the type of the value the cast looks at is well-formed,
+    kind-stable (no `Never` below a constructor) and `Any`-free, and the target well-formed.  **Partial**:
+    outside lies exactly `nil_anyresource_witness`. -/
+theorem engines_agree_kindstable_partial (v : DVal) (t : Ty) (n : Nat)
+    (hv : (dynType (unboxForCast t v)).wf = true) (ht : t.wf = true)
+    (hna : (dynType (unboxForCast t v)).noAny = true) (hst : kindStable (dynType (unboxForCast t v)) = true)
+    (hn : fuelFor (dynType (unboxForCast t v)) t ≤ n) :
+    castFailableVM R n v t = castFailable R n v t ∧ castForceVM R n v t = castForce R n v t := by
+  refine ⟨?_, ?_⟩ <;>
+    simp only [castFailableVM, castFailable, castForceVM, castForce,
+      Verif.Properties.C08.runtime_agrees_kindstable_partial _ t hv ht hna hst n hn]
+
+/-- **Known finding.**  A nil value (of a resource-typed optional, `let v: @R? <- nil`) cast to
+    `AnyResource`: the interpreter's `as?` yields nil and its `as!` aborts (`Never?` is not resource-kinded
+    for the checker's relation), the VM's `as?` / `as!` succeed (the run-time relation unwraps the optional
+    first: `Never <: AnyResource`), and `isInstance` is true in both.  C08's
+    `runtime_optional_never_witness` seen through casts. -/
+theorem nil_anyresource_witness :
+    castFailable R 100 .nilV (.prim "AnyResource") = none ∧
+    castFailableVM R 100 .nilV (.prim "AnyResource") = some .nilV ∧
+    (castForce R 100 .nilV (.prim "AnyResource")).toOption = none ∧
+    (castForceVM R 100 .nilV (.prim "AnyResource")).toOption = some .nilV ∧
+    isInstance R 100 .nilV (.prim "AnyResource") = true := by
+  decide
+
+/-- the VM's `as!` fails exactly when its `as?` yields nil, and otherwise gives the same value -/
+theorem force_iff_vm (v : DVal) (t : Ty) (fuel : Nat) :
+    (castForceVM R fuel v t).toOption = castFailableVM R fuel v t := by
+  simp only [castForceVM, castFailableVM]
+  split <;> rfl
+
 /-! Non-vacuity / teeth -/
+-- resources: `Some(Some(R))` cast to `AnyResource?` keeps both layers (the `AnyResource` is an `R?`) …
+example :
+    let r : Ty := .comp "R" .resource ["RI"] false
+    castFailable R 100 (wrap 2 (.atom r "R()")) (.opt (.prim "AnyResource")) = some (wrap 2 (.atom r "R()")) ∧
+    castFailableVM R 100 (wrap 2 (.atom r "R()")) (.opt (.prim "AnyResource")) = some (wrap 2 (.atom r "R()")) := by decide
+-- … cast to `R?` it is unwrapped and boxed once, cast to `{RI}` it is the bare `R`, cast to `R2` it fails
+example :
+    let r : Ty := .comp "R" .resource ["RI"] false
+    castFailable R 100 (wrap 2 (.atom r "R()")) (.opt r) = some (wrap 1 (.atom r "R()")) ∧
+    castFailable R 100 (wrap 2 (.atom r "R()")) (.inter [{ name := "RI", kind := .resource, confs := [] }]) = some (.atom r "R()") ∧
+    castFailable R 100 (wrap 2 (.atom r "R()")) (.comp "R2" .resource [] false) = none := by decide
+example : specResultType (wrap 2 (.atom (.comp "R" .resource ["RI"] false) "")) (.opt (.prim "AnyResource")) =
+    .opt (.opt (.comp "R" .resource ["RI"] false)) := by decide
+-- overlapping two-entitlement sets are different authorizations: not instances, not castable
+example :
+    let v : DVal := .atom (.varArr (.ref (.set .conj ["E", "F"]) (.prim "Int"))) "[&n]"
+    let t : Ty := .varArr (.ref (.set .conj ["E", "G"]) (.prim "Int"))
+    isInstance R 100 v t = false ∧ castFailable R 100 v t = none ∧ castFailableVM R 100 v t = none := by decide
+example :
+    let v : DVal := .atom (.varArr (.ref (.set .disj ["E", "F"]) (.prim "Int"))) "[&n]"
+    let t : Ty := .varArr (.ref (.set .disj ["E", "G"]) (.prim "Int"))
+    isInstance R 100 v t = false ∧ castFailable R 100 v t = none ∧
+    (castFailable R 100 v (.varArr (.ref (.set .disj ["E", "F", "G"]) (.prim "Int")))).isSome = true := by decide
 example : (castFailable R 100 (.atom (.prim "Int8") "1") (.prim "Integer")) = some (.atom (.prim "Int8") "1") := by decide
 example : (castFailable R 100 (.atom (.prim "Int8") "1") (.prim "String")) = none := by decide
 example : (castFailable R 100 (.some (.some (.atom (.prim "Int8") "1"))) (.prim "Integer")) = some (.atom (.prim "Int8") "1") := by decide
